@@ -3,9 +3,11 @@
     Model/Receivers.v (each receiving entry point as a loop whose body may Continue, Exit or
     Crash). The Thrift message layer under the Frugal header is a parameter assumed graceful
     (Apache Thrift's readers and the generated struct readers: exercised differentially only). *)
-From Coq Require Import ZArith List.
+From Coq Require Import ZArith List Bool.
 From FV Require Import Base.Res Base.Bytes Base.GoSem Model.Headers Model.Receivers
-  Proofs.BytesProofs Proofs.HeadersProofs Proofs.ReceiversProofs.
+  Proofs.BytesProofs Proofs.HeadersProofs Proofs.ReceiversProofs
+  Model.ReceiversFraming Proofs.ReceiversFramingProofs
+  Model.ReceiversHttp Proofs.ReceiversHttpProofs.
 Import ListNotations.
 Open Scope Z_scope.
 
@@ -88,4 +90,172 @@ Example c05_former_crashers :
   /\ read_header [0; 0;0;0;1; 7] = Err EInvalidData
   /\ execute_frame [0; 0] = Err EInvalidData
   /\ scope_body (fun _ => Ok tt) [1] = Continue (Rejected EInvalidData).
+Proof. vm_compute. repeat split. Qed.
+
+(** ------------------------------------------------------------------------------------
+    Framing layer (lib/go/framed_transport.go on bufio.Reader on a connection delivering
+    arbitrary chunks; fAdapterTransport.readFrame/readLoop; FSimpleServer readRequestFrame/accept).
+    Model/ReceiversFraming.v. A connection is a list of non-empty chunks and a terminal error. *)
+
+(** TFramedTransport.Read, any state and any buffer length: returns data and/or an error, never
+    panics (no make() of a wrapped size), never needs a third level of recursion; never hands
+    out more than asked; with a non-empty buffer it returns at least one byte or an error (so
+    io.ReadFull on it terminates); consumes what it returns; and the remaining frame size never
+    exceeds the limit (a frame announced larger than maxLength is never entered, frameSize never wraps) *)
+Theorem c05_framed_read_total : forall maxlen st k,
+  fst_ok st -> 0 <= maxlen -> f_size st <= maxlen -> 0 <= k ->
+  exists d e st', framed_read maxlen st k = (Rd d e, st') /\ fst_ok st' /\ f_size st' <= maxlen /\
+    final_of st' = final_of st /\
+    zlen d <= k /\ (0 < k -> e = None -> d <> []) /\
+    (length (avail st') + length d <= length (avail st))%nat.
+Proof. exact framed_read_total. Qed.
+Print Assumptions c05_framed_read_total.
+
+(** readFrame / readRequestFrame: whatever the chunking, the result is the one computed on the
+    concatenated stream: header short -> the connection's error; size over the limit -> error;
+    body short -> the connection's error; otherwise exactly the announced bytes, and the
+    transport is back between frames *)
+Theorem c05_read_frame_chunking_independent : forall maxlen chunks final,
+  chunking_ok chunks ->
+  exists r st', read_frame maxlen (fresh chunks final) = (r, st') /\
+    flat_read_frame maxlen final (concat chunks) = (r, avail st') /\ graceful r /\
+    fst_ok st' /\ (is_ok r = true -> f_size st' = 0).
+Proof. exact read_frame_chunking. Qed.
+Print Assumptions c05_read_frame_chunking_independent.
+
+(** adapter read loop: same number of frames dispatched and same end for every chunking *)
+Theorem c05_adapter_loop_chunking_independent : forall fuel maxlen chunks final,
+  chunking_ok chunks ->
+  adapter_loop fuel maxlen (fresh chunks final) 0 = flat_adapter_loop fuel maxlen final (concat chunks) 0.
+Proof. exact adapter_loop_chunking. Qed.
+Print Assumptions c05_adapter_loop_chunking_independent.
+
+(** ... and it ends by closing the connection (cleanly on END_OF_FILE, with the cause otherwise):
+    never a crash, never more iterations than bytes received *)
+Theorem c05_adapter_loop_closes : forall maxlen chunks final,
+  chunking_ok chunks -> zlen (concat chunks) < 2147483648 ->
+  loop_end_ok (snd (adapter_loop (S (length (concat chunks))) maxlen (fresh chunks final) 0)).
+Proof. exact adapter_loop_closes. Qed.
+Print Assumptions c05_adapter_loop_closes.
+
+(** the abstract connection receiver used by c05_connection_receiver_closes is this loop, for a
+    peer that closes and the default limit: the framing layer is no longer assumed there *)
+Theorem c05_adapter_loop_refines_abstract : forall fuel chunks,
+  chunking_ok chunks ->
+  conn_end_of (snd (adapter_loop fuel max_frame (fresh chunks EEOF) 0)) = adapter_read_loop fuel (concat chunks).
+Proof. exact adapter_loop_abstract. Qed.
+Print Assumptions c05_adapter_loop_refines_abstract.
+
+(** FSimpleServer.accept with any processor that returns (nil or an error) on every frame:
+    the loop ends (EOF, read error or processor error), independent of the chunking; what the
+    processor is handed are exactly the successive size-prefixed blocks of the stream, each
+    within the limit *)
+Theorem c05_simple_server_accept_total :
+  forall (process : bytes -> res bool) maxlen chunks final,
+  (forall f, graceful (process f)) -> chunking_ok chunks ->
+  let r := accept_loop process (S (length (concat chunks))) maxlen (fresh chunks final) in
+  accept_end_ok (snd r) /\
+  r = flat_accept_loop process (S (length (concat chunks))) maxlen final (concat chunks) /\
+  (exists rest, concat chunks = frames_wire (fst r) ++ rest) /\
+  Forall (fun f => zlen f <= maxlen) (fst r).
+Proof. exact accept_loop_total. Qed.
+Print Assumptions c05_simple_server_accept_total.
+
+(** ... in particular with the FBaseProcessor of Model/Processor.v (the C14 model: a request whose
+    header cannot be read ends the connection, everything else is answered): on every byte stream
+    and chunking the connection loop ends without a crash and serves exactly the frames of the stream *)
+Theorem c05_simple_server_base_processor_total :
+  forall svc h etext maxlen chunks final, chunking_ok chunks ->
+  let r := accept_loop (base_process svc h etext) (S (length (concat chunks))) maxlen (fresh chunks final) in
+  accept_end_ok (snd r) /\
+  r = flat_accept_loop (base_process svc h etext) (S (length (concat chunks))) maxlen final (concat chunks) /\
+  (exists rest, concat chunks = frames_wire (fst r) ++ rest).
+Proof. exact accept_base_processor_total. Qed.
+Print Assumptions c05_simple_server_base_processor_total.
+
+(** non-vacuity: a stream of two frames cut into awkward chunks, then a header over the limit *)
+Example c05_framing_example :
+  let chunks := [[0;0]; [0;2;7]; [8;0;0;0]; [1;9;0;0;0]; [200]] in
+  chunking_ok chunks /\
+  accept_loop (fun _ => Ok true) 20 100 (fresh chunks EEOF) = ([[7;8]; [9]], AcceptReadErr EOther).
+Proof. exact framing_example. Qed.
+
+(** the defect repaired by d5ba5a5 (TFramedTransport.Read fell through after an error of the
+    inner read): an empty frame followed by an oversized header made Read return the bytes
+    after that header with a nil error and left frameSize at 2^32-4; now it is an error *)
+Example c05_framed_read_swallowed_error_before_repair :
+  fst (framed_read_pinned 16384000 pinned_witness 4) = Rd [65;66;67;68] None /\
+  f_size (snd (framed_read_pinned 16384000 pinned_witness 4)) = 4294967292 /\
+  fst (framed_read 16384000 pinned_witness 4) = Rd [] (Some EOther) /\
+  f_size (snd (framed_read 16384000 pinned_witness 4)) = 0.
+Proof. exact framed_read_pinned_swallows. Qed.
+
+(** ------------------------------------------------------------------------------------
+    HTTP (lib/go/http_transport.go): the client's response path and the handler's size header.
+    Model/ReceiversHttp.v; net/http is outside, encoding/base64 is transcribed. *)
+
+(** fHTTPTransport.Request/Oneway, every status code, every body, body read failing or not:
+    a frame, nil (one-way) or an error; never the slice panic of response[4:] *)
+Theorem c05_http_client_response_total : forall status body trunc,
+  http_client_response status body trunc <> HcPanic.
+Proof. exact http_client_response_total. Qed.
+Print Assumptions c05_http_client_response_total.
+
+(** it hands a frame to the caller exactly when the status is below 300, the body could be read
+    and is valid base64 of more than 4 bytes; the payload is everything after the prefix *)
+Theorem c05_http_client_accepts_exactly : forall status body trunc p,
+  http_client_response status body trunc = HcFrame p <->
+  (status <> 413 /\ trunc = false /\ status < 300 /\
+   exists resp, b64_decode body = Some resp /\ 4 < zlen resp /\ p = drop 4 resp).
+Proof. exact http_client_frame_iff. Qed.
+Print Assumptions c05_http_client_accepts_exactly.
+
+(** status >= 300 is always an error (413 -> RESPONSE_TOO_LARGE) whatever the body contains *)
+Theorem c05_http_client_error_status : forall status body trunc,
+  300 <= status -> exists e, http_client_response status body trunc = HcErr e.
+Proof. exact http_client_error_status. Qed.
+Print Assumptions c05_http_client_error_status.
+
+(** the base64 decoder of the model accepts every encoder output and returns the bytes *)
+Theorem c05_base64_roundtrip : forall bs, bytes_ok bs -> b64_decode (b64_encode bs) = Some bs.
+Proof. exact b64_roundtrip. Qed.
+Print Assumptions c05_base64_roundtrip.
+
+(** so a well-formed reply reaches the caller intact *)
+Theorem c05_http_client_wellformed_reply : forall status prefix payload,
+  status < 300 -> bytes_ok prefix -> bytes_ok payload -> length prefix = 4%nat -> payload <> [] ->
+  http_client_response status (b64_encode (prefix ++ payload)) false = HcFrame payload.
+Proof. exact http_client_wellformed. Qed.
+Print Assumptions c05_http_client_wellformed_reply.
+
+(** server handler: any x-frugal-payload-limit value and any Content-Length give one of the
+    four statuses; a value that is not an integer is a 400; a positive limit is enforced exactly,
+    a non-positive one is no limit *)
+Theorem c05_http_server_size_header_total : forall limit clen pok prok outlen,
+  let s := http_server_status limit clen pok prok outlen in
+  s = 200 \/ s = 400 \/ s = 413 \/ s = 500.
+Proof. exact http_server_status_cases. Qed.
+Print Assumptions c05_http_server_size_header_total.
+
+Theorem c05_http_server_limit_exact : forall s lim clen outlen,
+  parse_int64 s = Some lim -> s <> [] -> 4 <= clen ->
+  http_server_status (Some s) clen true true outlen =
+    if (0 <? lim) && (lim <? outlen) then 413 else 200.
+Proof. exact http_server_limit_exact. Qed.
+Print Assumptions c05_http_server_limit_exact.
+
+Theorem c05_http_server_bad_limit_rejected : forall s clen pok prok outlen,
+  s <> [] -> parse_int64 s = None -> http_server_status (Some s) clen pok prok outlen = 400.
+Proof. exact http_server_bad_limit. Qed.
+Print Assumptions c05_http_server_bad_limit_rejected.
+
+Example c05_http_examples :
+  http_client_response 200 [65;65;65;65;65;81;85;61] false = HcFrame [5]      (* "AAAAAQU=" *)
+  /\ http_client_response 200 [65;65;65;65;65;65;61;61] false = HcOneway      (* "AAAAAA==" *)
+  /\ http_client_response 200 [65;65;65;66;65;65;61;61] false = HcErr HcInvalidData
+  /\ http_client_response 200 [65;65;65] false = HcErr HcUnknown
+  /\ http_client_response 413 [] false = HcErr HcTooLarge
+  /\ http_client_response 500 suf_canceled false = HcErr HcTimedOut
+  /\ parse_int64 [45;49;50] = Some (-12) /\ parse_int64 [49;95;48] = None
+  /\ http_server_status (Some [53]) 100 true true 6 = 413.
 Proof. vm_compute. repeat split. Qed.
